@@ -78,4 +78,11 @@ def certificate (fc : List Nat) (off : List (List Nat)) (T : TapPkg) : Bool :=
   subConsistent T.np T.R &&
   (List.range T.np).all fun r => tapForward 0 T (ids fc T.np) r == (off.getD r []).map some
 
+/-- the routing check with the identity payload shifted by one: tag 0 can then only come from the
+    default, i.e. from a send index that is out of range (the plain certificate cannot tell such an
+    index from a request for global index 0); the driver evaluates both -/
+def routesShifted (fc : List Nat) (off : List (List Nat)) (T : TapPkg) : Bool :=
+  (List.range T.np).all fun r =>
+    tapForward 0 T ((ids fc T.np).map (List.map (· + 1))) r == (off.getD r []).map (fun c => some (c + 1))
+
 end Raptor.Tap
